@@ -244,7 +244,7 @@ def check_pure(ctx: Ctx) -> None:
     repo, prog = ctx.repo, ctx.prog
     scope = pure_scope(ctx)
     ctx.note("functions_reachable_from_formatting_entry_points", len(scope))
-    ctx.require("R-PURE", "functions reachable from the formatting entry points", len(scope), 60)
+    ctx.require("R-PURE", "functions reachable from the formatting entry points", len(scope), 30)
     stateful = stateful_classes(ctx)
     factories = _stateful_factories(ctx, stateful)
     ctx.note("stateful_classes", stateful)
@@ -382,7 +382,7 @@ def check_pure(ctx: Ctx) -> None:
                         if b is not None and _name_scope(ctx, fi, b.id) == "global":
                             ctx.ob("R-PURE-S5", key + " stored globally", False,
                                    f"stateful instance stored in module-level object `{b.id}`", where(mod, st))
-    ctx.require("R-PURE", "allocation sites of stateful objects", n_sites, 4)
+    ctx.require("R-PURE", "allocation sites of stateful objects", n_sites, 2)
     ctx.note("stateful_allocation_sites", n_sites)
 
     # S5b: FlowmarkMarkdown builds a fresh parser and renderer on *every* parse() and render():
@@ -435,7 +435,7 @@ def check_pure(ctx: Ctx) -> None:
     for a in sorted(used):
         ctx.ob("R-PURE-S7", f"{mn.qual} :: self.{a}", a in init_attrs,
                "every renderer field read or written by a render method is (re)initialised per instance in __init__", where(mn, mn.node))
-    ctx.require("R-PURE", "renderer state fields", len(used), 8)
+    ctx.require("R-PURE", "renderer state fields", len(used), 4)
 
     # S3b class-level mutable defaults on classes of the formatting path
     for ci in repo.classes.values():
@@ -594,7 +594,7 @@ def check_marko_contract(ctx: Ctx) -> None:
                     if b is not None and b.id in module_names and b.id not in local:
                         found.append((rel, norm(n.func), n.lineno))
     ctx.note("marko_functions_scanned", n_funcs)
-    ctx.require("R-PURE-S8", "marko functions scanned", n_funcs, 100)
+    ctx.require("R-PURE-S8", "marko functions scanned", n_funcs, 50)
     for rel, what, line in found:
         reason = MARKO_EXEMPT.get((rel, what))
         ctx.ob("R-PURE-S8", f"marko/{rel} :: {what}", reason is not None,
